@@ -87,7 +87,7 @@ def _expand_comp(node):
     """[f(n) for n in (literal, ...)] -> [f(literal), ...] (elements), or None."""
     if isinstance(node, (ast.ListComp, ast.GeneratorExp)) and len(node.generators) == 1:
         g = node.generators[0]
-        if not g.ifs and not g.is_async and isinstance(g.target, ast.Name) and isinstance(g.iter, (ast.List, ast.Tuple)) and 0 < len(g.iter.elts) <= 8 and all(isinstance(e, ast.Constant) for e in g.iter.elts):
+        if not g.ifs and not g.is_async and isinstance(g.target, ast.Name) and isinstance(g.iter, (ast.List, ast.Tuple)) and 0 < len(g.iter.elts) <= 8 and all(isinstance(e, (ast.Constant, ast.Name, ast.Attribute)) for e in g.iter.elts):
             return [_subst_name(node.elt, g.target.id, e) for e in g.iter.elts]
     return None
 
@@ -111,6 +111,16 @@ class _Expr(ast.NodeTransformer):
                     vals.append(_subst_name(node.value, g.target.id, e))
                 return ast.copy_location(ast.Dict(keys=keys, values=vals), node)
         return node
+
+
+def _subst_name_stmt(stmt, name, value):
+    class S(ast.NodeTransformer):
+        def visit_Name(self, n):
+            if n.id == name and isinstance(n.ctx, ast.Load):
+                return copy.deepcopy(value)
+            return n
+
+    return S().visit(stmt)
 
 
 def _subst_name(expr, name, value):
@@ -141,11 +151,87 @@ class Desugar:
 
     def body(self, stmts) -> list:
         out = []
+        stmts = self._append_loops(list(stmts))
         for st in stmts:
             out.extend(self.stmt(st))
         if not out and stmts:
             out = [ast.copy_location(ast.Pass(), stmts[0])]
         return out
+
+    @staticmethod
+    def _append_loops(stmts):
+        """x = []; for v in it: x.append(e)  ->  x = [e for v in it]"""
+        out, i = [], 0
+        while i < len(stmts):
+            a = stmts[i]
+            b = stmts[i + 1] if i + 1 < len(stmts) else None
+            if (isinstance(a, ast.Assign) and len(a.targets) == 1 and isinstance(a.targets[0], ast.Name) and isinstance(a.value, ast.List) and not a.value.elts
+                    and isinstance(b, ast.For) and not b.orelse and len(b.body) == 1 and isinstance(b.body[0], ast.Expr) and isinstance(b.body[0].value, ast.Call)
+                    and isinstance(b.body[0].value.func, ast.Attribute) and b.body[0].value.func.attr == "append" and isinstance(b.body[0].value.func.value, ast.Name)
+                    and b.body[0].value.func.value.id == a.targets[0].id and len(b.body[0].value.args) == 1 and not b.body[0].value.keywords):
+                comp = ast.ListComp(elt=b.body[0].value.args[0], generators=[ast.comprehension(target=b.target, iter=b.iter, ifs=[], is_async=0)])
+                out.append(ast.copy_location(ast.Assign(targets=a.targets, value=ast.copy_location(comp, b)), a))
+                i += 2
+                continue
+            out.append(a)
+            i += 1
+        return out
+
+    @staticmethod
+    def _bind_target(target, item):
+        if isinstance(target, ast.Name):
+            return {target.id: item}
+        if isinstance(target, (ast.Tuple, ast.List)) and isinstance(item, (ast.Tuple, ast.List)) and len(item.elts) == len(target.elts) and all(isinstance(t, ast.Name) for t in target.elts):
+            return {t.id: v for t, v in zip(target.elts, item.elts)}
+        return None
+
+    def unroll(self, st: ast.For):
+        """`for v in (a, b): body` -> body[a]; body[b] when the body neither rebinds v nor breaks/continues;
+        `for v in (a, b): if c(v): S; break` (+ else: E) -> if c(a): S[a] elif c(b): S[b] else: E."""
+        envs = [self._bind_target(st.target, it) for it in st.iter.elts]
+        if any(e is None for e in envs):
+            return None
+        names = set(envs[0])
+        body = st.body
+
+        def rebinds(stmts):
+            for n in ast.walk(ast.Module(body=list(stmts), type_ignores=[])):
+                if isinstance(n, ast.Name) and isinstance(n.ctx, (ast.Store, ast.Del)) and n.id in names:
+                    return True
+                if isinstance(n, (ast.FunctionDef, ast.Lambda, ast.ClassDef)):
+                    return True
+            return False
+
+        def has(stmts, kinds):
+            return any(isinstance(n, kinds) for s_ in stmts for n in ast.walk(s_))
+
+        def inst(stmts, env):
+            out = []
+            for s_ in stmts:
+                c = copy.deepcopy(s_)
+                for k, v in env.items():
+                    c = _subst_name_stmt(c, k, v)
+                out.append(c)
+            return out
+
+        if rebinds(body):
+            return None
+        if not has(body, (ast.Break, ast.Continue)) and not st.orelse:
+            out = []
+            for env in envs:
+                out.extend(inst(body, env))
+            return out
+        # search form: a single `if` whose body ends with break
+        if len(body) == 1 and isinstance(body[0], ast.If) and not body[0].orelse and body[0].body and isinstance(body[0].body[-1], ast.Break) \
+                and not has(body[0].body[:-1], (ast.Break, ast.Continue)):
+            chain = list(st.orelse)
+            for env in reversed(envs):
+                ifs = inst([body[0]], env)[0]
+                ifs.body = ifs.body[:-1] or [ast.copy_location(ast.Pass(), st)]
+                ifs.orelse = chain
+                chain = [ifs]
+            return chain
+        return None
 
     def stmt(self, st) -> list:
         # recurse into compound statements first
@@ -180,6 +266,11 @@ class Desugar:
                     setattr(st, field, _Expr().visit(val))
         for a in pre:
             a.value = _Expr().visit(a.value)
+        # loops over a short literal sequence
+        if isinstance(st, ast.For) and isinstance(st.iter, (ast.Tuple, ast.List)) and 0 < len(st.iter.elts) <= 4 and not any(isinstance(e, ast.Starred) for e in st.iter.elts):
+            un = self.unroll(st)
+            if un is not None:
+                return pre + un
         # for k, (a, b) in D.items(): ...  ->  for k in D: a, b = D[k]; ...
         if isinstance(st, ast.For) and isinstance(st.target, ast.Tuple) and len(st.target.elts) == 2 and isinstance(st.target.elts[0], ast.Name) and isinstance(st.target.elts[1], (ast.Tuple, ast.List)) \
                 and isinstance(st.iter, ast.Call) and isinstance(st.iter.func, ast.Attribute) and st.iter.func.attr == "items" and not st.iter.args and isinstance(st.iter.func.value, (ast.Name, ast.Attribute)):
